@@ -96,6 +96,7 @@ type Axiom struct {
 	Text  string
 	BV    bool // lemma over machine bit-vectors (arith bv)
 	Lemma bool
+	Manual bool // not assumed globally: instantiated explicitly with use@anchor name(args)
 	Props []string
 	Line  int
 	File  string
@@ -282,11 +283,16 @@ func parseContractLine(body, path string, line int, stub bool, cf *ContractFile,
 			bv = true
 			r = strings.TrimSpace(r[3:])
 		}
+		manual := false
+		if strings.HasPrefix(r, "manual ") {
+			manual = true
+			r = strings.TrimSpace(r[7:])
+		}
 		i := strings.Index(r, ":")
 		if i < 0 {
 			return fmt.Errorf("axiom/lemma needs a name")
 		}
-		cf.Axioms = append(cf.Axioms, &Axiom{Name: strings.TrimSpace(r[:i]), Text: strings.TrimSpace(r[i+1:]), Lemma: word == "lemma", BV: bv, Props: props, Line: line, File: path})
+		cf.Axioms = append(cf.Axioms, &Axiom{Name: strings.TrimSpace(r[:i]), Text: strings.TrimSpace(r[i+1:]), Lemma: word == "lemma", BV: bv, Manual: manual, Props: props, Line: line, File: path})
 		return nil
 	case word == "owner":
 		// owner [@Cxx] T: f1, f2 by F1, T.M2
@@ -423,6 +429,11 @@ func parseClause(body, path string, line int, fc *FuncContract, us *UnitSpec) er
 	case strings.HasPrefix(word, "assert@"):
 		c := mk("assert")
 		c.Arg = strings.TrimPrefix(word, "assert@")
+		us.Asserts = append(us.Asserts, c)
+	case strings.HasPrefix(word, "use@"):
+		// use@anchor axiomName(arg, ...): an explicit instance of a declared (manual) axiom
+		c := mk("use")
+		c.Arg = strings.TrimPrefix(word, "use@")
 		us.Asserts = append(us.Asserts, c)
 	case strings.HasPrefix(word, "assume@"):
 		c := mk("assume")
